@@ -3,8 +3,8 @@
 set -e
 cd "$(dirname "$0")"
 export GOFLAGS=-mod=mod GOPROXY=off GOSUMDB=off GOTOOLCHAIN=local
-(cd harness && go build -o bin/extract ./cmd/extract && bin/extract -repo /repo -out ../lean/Goirc/Facts.lean)
 (cd harness && go build -o bin/go2lean ./cmd/go2lean && bin/go2lean -repo /repo -out ../lean/Goirc/Gen/Pure.lean)
+(cd harness && go build -o bin/extract ./cmd/extract && bin/extract -repo /repo -out ../lean/Goirc/Facts.lean -gen ../lean/Goirc/Gen/Pure.lean.manifest -gencheck ../lean/Goirc/GenCheck)
 GEN=$(cd lean && ls Goirc/GenCheck/*.lean 2>/dev/null | sed 's/\.lean$//; s#/#.#g' | tr '\n' ' ')
 (cd lean && lake build Goirc Goirc.FactsCheck Goirc.GenCheck Goirc.Gen.Smoke $GEN driver)
 (cd harness && go build -tags verif -o bin/corr ./cmd/corr && (go build -race -tags verif -o bin/racer ./cmd/racer || echo "note: race-enabled build unavailable"))
